@@ -61,14 +61,13 @@ CLAIMED = {
              'all lengths >= 1 fully discharged). Three defects found here were repaired (transpose axes, reshape negative lengths, unravel size check). Trusted: _Wrapper(...)/Array.cast/NEP-18 dispatch as leaf models, divmod in characteristic form.',
         technique='contract-based deductive verification (ast->z3): unbounded for _takeslice/normdim; bounded structural unrolling with symbolic lengths for the shape rules'),
     'C08': dict(
-        design='4.8',
-        text='Very narrow kernel: numeric.ext(A) for n = 1, 2, 3 (all cases implemented) and all real entries is orthogonal to every column of A, has squared length det(A^T A) '
-             '(the surface measure) and the orientation det([A|ext]) = +|ext|^2 (n=1,3) / -|ext|^2 (n=2) that the edge transforms rely on; transform.Updim.ext negates it exactly when isflipped. '
-             'Polynomial identities over the reals, z3 nonlinear arithmetic, no bound.',
-        note='Everything else in the property (gradients, div, curl, laplace, Jacobians, divergence theorem, normalisation, independence of parametrisation) '
-             'needs calculus and n-dimensional array semantics and is OUTSIDE: read this claim as "the algebraic core of the edge normal is right". Floats treated as reals. Orientation bookkeeping of '
-             'ScaledUpdim / tensor edges: see DESIGN 9.5 (ext-c10) for what was added.',
-        technique='contract-based deductive verification: ast->z3 (NRA) on the real function bodies'),
+        design='4.8 and 9.5',
+        text='Algebraic and orientation kernel of the edge normal. Unbounded (NRA): numeric.ext(A) for n = 1, 2, 3 and all real entries is orthogonal to every column of A, has squared length det(A^T A) and the orientation the edge transforms '
+             'rely on; Updim.ext negates it exactly when isflipped. BOUNDED (ndims <= 3; entries symbolic; the real constructors of SimplexEdge, TensorEdge1, TensorEdge2, ScaledUpdim, Updim, Matrix, every `flipped`, numeric.blockdiag and '
+             'SimplexReference / TensorReference.edge_transforms are executed): a tensor edge\'s ext is the factor\'s ext padded with zeros with the same sign; ScaledUpdim: A^T ext\' = |det A| ext and the transported normal keeps its side '
+             '(orientation = trans1.isflipped xor trans2.isflipped); SimplexEdge maps onto the face opposite its vertex; all edge normals of line, triangle, tetrahedron, square, cube and the two prisms point out of the element; flipped negates flag and ext.',
+        note='Everything about calculus (gradients, div, curl, laplace, Jacobians, divergence theorem on meshes, normalisation, independence of parametrisation) needs n-dimensional array semantics and is OUTSIDE. Floats treated as reals.',
+        technique='contract-based deductive verification: ast->z3 (NRA) on the real function bodies and constructors'),
     'C09': dict(
         design='4.9 and 9.5',
         text='(a) Tables: every branch of the real points.gauss2 / gauss3 code executed in exact rational arithmetic: weights sum to 1/d!, points inside, every monomial up to the advertised degree integrated exactly '
@@ -80,13 +79,15 @@ CLAIMED = {
              'Trusted: exactness 2N-1 of Gauss-Legendre, linearity, IR constructor denotations (cross-checked against the real nodes in native/axioms.py), machine arithmetic as mathematical for the tables.',
         technique='contract-based verification: real table code executed in exact-rational mode with ground obligations to z3; ast->z3 with ghost inverse functions and modular operand contracts for the index partition'),
     'C10': dict(
-        design='4.10',
-        text='Very narrow kernel: structured-axis arithmetic of transformseq for all integer axes [i,j) incl. periodic ones: the two interface axes of a DimAxis have equal length and pair each '
-             'interior face with its two neighbouring elements exactly once (mod the period); boundaries are exactly the first and last element faces and absent when periodic; refinement doubles '
-             'i, j and the period and commutes with taking boundaries; IntAxis.opposite is an involution shifting to the neighbour; slicing keeps the right sub-range.',
-        note='Measures, trimming, hierarchical/unstructured topologies, unions, products, connectivity tables and closedness of boundaries are global geometric invariants over histories of '
-             'operations and are OUTSIDE this family; the claim says only that the index arithmetic of structured axes is right. See DESIGN 9.5 (ext-c10) for what was added.',
-        technique='contract-based deductive verification: ast->z3 on the real method bodies (harness contracts for compositions)'),
+        design='4.10 and 9.5',
+        text='Index bookkeeping of structured and derived topologies. Unbounded: transformseq DimAxis.intaxis/boundaries/refined/getitem, IntAxis.refined/opposite (interface axes pair each interior face with its two neighbours exactly once incl. '
+             'periodic; refinement doubles i, j and the period and commutes with boundaries). BOUNDED (<= 3 axes; axis ranges, periods, periodic flags symbolic; real bodies of StructuredTopology.connectivity / boundary / interfaces / refined / '
+             'slice_unchecked with their constructors and all Axis methods): connectivity is neighbour-or-wrap-or--1 and symmetric; boundary = the 2 sides per non-periodic axis with outward opposites; interfaces pair e with e + unit_k exactly once '
+             '(count formula); refined doubles every axis and commutes with boundary. SubsetTopology.connectivity (<= 4 base elements, symbolic table and kept set): renumbered-or-boundary, symmetric if the base is. Native exhaustive enumerations: '
+             'Reference.connectivity / edgechildren tables (7 reference types), RefinedTopology.connectivity, SubsetTopology.connectivity/boundary/interfaces against the geometry (~9,100 cases).',
+        note='Two recorded KNOWN FINDINGS (RefinedTopology.connectivity and SubsetTopology.interfaces when two elements share two faces; carve-out: the same enumerations over bases without such pairs). One defect repaired (invmap of an empty list). '
+             'Measures, trimming by a level set, hierarchical refinement-by-subset, unions and closedness of boundaries are global geometric invariants over histories: OUTSIDE.',
+        technique='contract-based deductive verification: ast->z3 on the real method bodies (harness contracts for compositions, objects of real classes executed from source); bounded native enumeration for the connectivity tables'),
     'C11': dict(
         design='4.11 and 9.5',
         text='Lookup kernel: for IndexTransforms, MaskedTransforms, ReorderedTransforms, UniformDerivedTransforms, DerivedTransforms and (bounded: 3 items) ChainedTransforms a harness composes the REAL '
